@@ -272,6 +272,9 @@ def generate(rng, tier, i):
     flavour = rng.random()
     blocks, cifs, items = [], [], []
     used_by_cif: dict[int, set] = {}
+    # "all sequences of builder calls" includes giving a builder a second beamline / data set /
+    # calibration (rare in the workload: it trips the recorded finding F-C14-3)
+    allow_dup = rng.random() < 0.04
     n_ops = rng.randrange(2, 13)
     saves = 0
     for _ in range(n_ops):
@@ -340,7 +343,8 @@ def generate(rng, tier, i):
                 continue
             src = rng.choice(cifs)
             k = new()
-            avail = {"beamline", "powder_tof", "powder_dspacing", "calibration"} - used_by_cif[src]
+            avail = {"beamline", "powder_tof", "powder_dspacing", "calibration"} - (
+                set() if allow_dup else used_by_cif[src])
             if r < 0.28:
                 ops.append({"op": "with_authors", "src": src, "id": k,
                             "authors": [gen_person(rng) for _ in range(rng.choice([0, 1, 1, 2, 3, 5]))]})
@@ -1274,6 +1278,18 @@ class CifEngine(Engine):
         if noname:
             ctx.probe("hazard_empty_block_name")
             hz = sorted(set(hz) | {"empty_block_name"})
+        duptags = False
+        for b in exp["blocks"]:
+            tags = []
+            for it in b["items"]:
+                if it[0] == "pair":
+                    tags.append(it[1])
+                elif it[0] == "loop":
+                    tags.extend(it[1])
+            duptags = duptags or len(set(tags)) != len(tags)
+        if duptags:
+            ctx.probe("hazard_item_kind_given_twice")
+            hz = sorted(set(hz) | {"item_kind_given_twice"})
 
         def bad(kind, msg, **sig):
             # runs that contain a string with no CIF 1.1 representation (or a block without a
@@ -1281,7 +1297,8 @@ class CifEngine(Engine):
             # another violation
             ctx.violate(kind.split(":")[0], f"[{where}] {msg}", kind=kind, hazards=hz, found_by=fb,
                         group=kind + ("|unrepresentable-string-present" if unrep else "")
-                        + ("|empty-block-name-present" if noname else ""), **sig)
+                        + ("|empty-block-name-present" if noname else "")
+                        + ("|item-kind-given-twice" if duptags else ""), **sig)
 
         non_ascii = [c for c in text if ord(c) > 127]
         if non_ascii:
@@ -1375,6 +1392,26 @@ class CifEngine(Engine):
     def counterfactual(self, name, scn):
         if name == "no_semicolon_lines":
             return _neutralise_semicolon_lines(scn)
+        if name == "no_item_kind_twice":
+            c = copy.deepcopy(scn)
+            used: dict[int, set] = {}
+            kinds = {"with_beamline": "beamline", "with_powder": "powder", "with_calibration": "calibration"}
+            for op in c["ops"]:
+                o = op["op"]
+                if o == "cif":
+                    used[op["id"]] = set()
+                elif o in kinds:
+                    u = used.get(op["src"], set())
+                    if kinds[o] in u:
+                        keep = {"op": "copy", "src": op["src"], "id": op["id"]}
+                        op.clear()
+                        op.update(keep)
+                        used[op["id"]] = set(u)
+                    else:
+                        used[op["id"]] = u | {kinds[o]}
+                elif "src" in op and "id" in op:
+                    used[op["id"]] = set(used.get(op["src"], set()))
+            return c
         if name == "no_empty_block_names":
             c = copy.deepcopy(scn)
             for op in c["ops"]:
